@@ -240,10 +240,44 @@ theorem all_zipWith_le {K : Type} [LinearOrder K] (c t : List K) :
     | nil => simp
     | cons b t => simp [ih]
 
+/-! ### paired lists by index (specification side of any/all) -/
+
+theorem zip_exists_iff_index {α : Type} (r : α → α → Prop) (c t : List α) :
+    (∃ p ∈ c.zip t, r p.1 p.2) ↔ ∃ i, ∃ (h1 : i < c.length) (h2 : i < t.length), r c[i] t[i] := by
+  constructor
+  · rintro ⟨p, hp, hr⟩
+    obtain ⟨i, hi, rfl⟩ := List.mem_iff_getElem.mp hp
+    have hi' : i < c.length ∧ i < t.length := by simpa [List.length_zip] using hi
+    refine ⟨i, hi'.1, hi'.2, ?_⟩
+    simpa [List.getElem_zip] using hr
+  · rintro ⟨i, h1, h2, hr⟩
+    have hi : i < (c.zip t).length := by simp [List.length_zip]; omega
+    refine ⟨(c.zip t)[i], List.getElem_mem hi, ?_⟩
+    simpa [List.getElem_zip] using hr
+
+theorem zip_forall_iff_index {α : Type} (r : α → α → Prop) (c t : List α) :
+    (∀ p ∈ c.zip t, r p.1 p.2) ↔ ∀ i, ∀ (h1 : i < c.length) (h2 : i < t.length), r c[i] t[i] := by
+  constructor
+  · intro h i h1 h2
+    have hi : i < (c.zip t).length := by simp [List.length_zip]; omega
+    have := h (c.zip t)[i] (List.getElem_mem hi)
+    simpa [List.getElem_zip] using this
+  · intro h p hp
+    obtain ⟨i, hi, rfl⟩ := List.mem_iff_getElem.mp hp
+    have hi' : i < c.length ∧ i < t.length := by simpa [List.length_zip] using hi
+    have := h i hi'.1 hi'.2
+    simpa [List.getElem_zip] using this
+
 /-! ### criteria algebra -/
 
 section crit
 variable {K : Type} [Field K]
+
+/-- the model's own sum is the library sum -/
+theorem sumK_eq_sum (ws : List K) : sumK ws = ws.sum := by
+  induction ws with
+  | nil => simp [sumK]
+  | cons w ws ih => simp [sumK, ih]
 
 theorem sumK_map_mul (ws : List K) (a : K) : sumK (ws.map (· * a)) = sumK ws * a := by
   induction ws with
